@@ -251,43 +251,13 @@ class ParserTable:
 
     # ---------------------------------------------------------------------------------
     def _extract_wrappers(self) -> None:
-        """``match_K(self, context, token)``: EOF guard + handle_external_error(..., matcher.match_K)."""
+        """``match_K(self, context, token)``: EOF guard + handle_external_error(..., matcher.match_K) - read off the normal form."""
+        from .frame import analyse_wrapper_fn
         for name, fi in self.cls.methods.items():
             if not name.startswith("match_") or name.startswith("match_token"):
                 continue
             kind = name[len("match_"):]
-            info = {"kind": kind, "line": fi.node.lineno, "eof_guard": False, "target": None,
-                    "default": None, "argument": None, "shape_ok": True, "fi": fi}
-            body = [s for s in fi.node.body if not (isinstance(s, ast.Expr) and isinstance(s.value, ast.Constant))]
-            idx = 0
-            if body and isinstance(body[0], ast.If):
-                g = body[0]
-                tst = g.test
-                if isinstance(tst, ast.Call) and isinstance(tst.func, ast.Attribute) and tst.func.attr == "eof" \
-                        and isinstance(tst.func.value, ast.Name) and not tst.args \
-                        and len(g.body) == 1 and isinstance(g.body[0], ast.Return) \
-                        and isinstance(g.body[0].value, ast.Constant) and g.body[0].value.value is False \
-                        and not g.orelse:
-                    info["eof_guard"] = True
-                    info["guard_var"] = tst.func.value.id
-                    idx = 1
-            rest = body[idx:]
-            if len(rest) == 1 and isinstance(rest[0], ast.Return):
-                cs = _call_self(rest[0].value)
-                if cs and cs[0] == "handle_external_error" and len(cs[1]) == 4:
-                    ctx, dflt, arg, act = cs[1]
-                    info["default"] = dflt.value if isinstance(dflt, ast.Constant) else self.src(dflt)
-                    info["argument"] = arg.id if isinstance(arg, ast.Name) else self.src(arg)
-                    if isinstance(act, ast.Attribute) and isinstance(act.value, ast.Attribute) \
-                            and act.value.attr == "token_matcher":
-                        info["target"] = act.attr
-                    else:
-                        info["target"] = self.src(act)
-                else:
-                    info["shape_ok"] = False
-            else:
-                info["shape_ok"] = False
-            self.wrappers[kind] = info
+            self.wrappers[kind] = analyse_wrapper_fn(kind)
 
     def _extract_lookaheads(self) -> None:
         from .frame import analyse_lookahead
